@@ -145,6 +145,17 @@ def _is_copy_expr(a: ast.AST) -> bool:
     return False
 
 
+def copy_root(a: ast.AST) -> Optional[str]:
+    """Root name of the object a copy expression copies: list(x) / x[:] / sorted(x) / x.copy() -> 'x'."""
+    if isinstance(a, ast.Call):
+        if isinstance(a.func, ast.Attribute) and a.func.attr == "copy":
+            return astx.root_name(a.func.value)
+        if a.args:
+            return astx.root_name(a.args[0])
+        return None
+    return astx.root_name(a)
+
+
 def resolve_call(prog: Program, fn: FuncInfo, call: ast.Call, recv_cls=None) -> Optional[FuncInfo]:
     """Resolve a call to a repo function: self.m() via the MRO of recv_cls (default: fn's class),
     Cls.m() / Cls() (-> __init__), bare names via module functions/imports, nested helpers."""
